@@ -337,10 +337,14 @@ Qed.
 Lemma schedule_new_tasks_Q st st' r : schedule_new_tasks prm o st = (st', r) -> Q st ->
   Q st' /\ (forall e, r = SErr e -> Dok (s_trace st') -> False).
 Proof.
-  unfold schedule_new_tasks. destruct (Nat.leb _ _).
-  - intros H HQ. injection H as <- <-. split; [|discriminate].
-    apply (Q_quiet st _ [ECbSleep]); auto. intros x e [<-|[]]. reflexivity.
-  - apply schedule_k_Q.
+  intros H HQ. apply schedule_new_tasks_cases in H. destruct H as (st1 & Hbl & Hc).
+  assert (HQ1 : Q st1).
+  { destruct Hbl as [->|[busy Hb]]; [exact HQ|]. apply busy_look_spec in Hb.
+    destruct Hb as (_ & R2 & Ht & _ & _ & _ & _ & _ & Htd & _).
+    apply (Q_quiet st st1 [EBBusy busy]); auto; try lia. intros x e [<-|[]]. reflexivity. }
+  destruct Hc as [[-> ->]|(k & _ & Hk)].
+  - split; [|discriminate]. apply (Q_quiet st1 _ [ECbSleep]); auto. intros x e [<-|[]]. reflexivity.
+  - eapply schedule_k_Q; eauto.
 Qed.
 
 Lemma iteration_end_Q st st' c : iteration_end prm o st = (st', c) -> Q st -> Q st'.
